@@ -37,7 +37,8 @@ SETTING_KEYS = {"decay-category", "nuclide", "seed", "nb-events", "activity-Bq",
 INFO_KEYS = {"library-name", "library-version", "time-from-epoch-s", "erange-toallevents", "pgops"}
 STATUS = "@status"
 MDL = {  # label, rank, phi, theta, aperture ; None = option not given
-    "e-": ("e-", 0, 30, 60, 20), "all": ("all", None, None, None, None), "gamma": ("gamma", 1, None, None, 35),
+    # (the angles are real-valued options: values with a fractional part)
+    "e-": ("e-", 0, 30.5, 60.25, 20.5), "all": ("all", None, None, None, None), "gamma": ("gamma", 1, None, None, 35.5),
     "badlabel": ("muon", None, None, None, None), "badrank": ("e-", -2, None, None, None),
     "negap": ("e-", None, None, None, -5), "bigap": ("e-", None, None, None, 400), "nolabel": (None, 0, None, None, 20)}
 UNKNOWN_OPTS = ["--frobnicate", "-x", "--nb-events=3", "--Seed", "-"]
